@@ -209,6 +209,22 @@ func (sv *c18Server) serve(r *vf.Rand, rs *c18Resp, out chan<- c18Result, releas
 		}
 	}
 	if rs.closeAfter >= 0 {
+		// the server hangs up (FIN) in the middle of the response and then waits for the client to let go of its end
+		if tc, ok := conn.(*net.TCPConn); ok {
+			_ = tc.CloseWrite()
+			res.checkedClose = true
+			_ = conn.SetReadDeadline(time.Now().Add(3 * time.Second))
+			one := make([]byte, 1)
+			for {
+				_, rerr := br.Read(one)
+				if rerr == nil {
+					continue
+				}
+				var ne net.Error
+				res.clientClosed = !(errors.As(rerr, &ne) && ne.Timeout())
+				break
+			}
+		}
 		return
 	}
 	if !rs.expectOK {
@@ -297,7 +313,13 @@ func c18Script(r *vf.Rand) *c18Resp {
 	rs.expectOK = strings.HasPrefix(rs.status, "HTTP/1.1 101") && strings.EqualFold(rs.upgrade, "websocket") && rs.accept == "ok"
 	if rs.expectOK {
 		for i := 0; i < r.Intn(4); i++ {
-			rs.piggy = append(rs.piggy, wsMsg{Text: r.Bool(), Payload: asciiBytes(r, []int{0, 1, 5, 125, 126, 300}[r.Intn(6)])})
+			pl := asciiBytes(r, []int{0, 1, 5, 125, 126, 300}[r.Intn(6)])
+			if r.Chance(1, 4) {
+				// application data that itself ends in a blank line (an embedded HTTP- or SIP-like message): the bytes
+				// received with the response head then end in CR LF CR LF a second time
+				pl = append(pl, "\r\n\r\n"...)
+			}
+			rs.piggy = append(rs.piggy, wsMsg{Text: r.Bool(), Payload: pl})
 		}
 		for i := 0; i < r.Intn(3); i++ {
 			rs.later = append(rs.later, wsMsg{Text: r.Bool(), Payload: asciiBytes(r, r.Intn(200))})
